@@ -19,7 +19,7 @@ import (
 // C11 — enum constants are complete and carry the exact specification values.
 
 // value pools, biased to collisions
-var c11StrPool = []string{"foo", "Foo", "FOO", "foo1", "Foo1", "foo_1", "foo-1", "foo 1", "bar", "Bar", "1", "1st", "2", "10", "", " ", "  ", "_", "-", "a b", "a-b", "a_b", "a.b", "A B",
+var c11StrPool = []string{" 1a", "a", "/foo", "_x", "x", "☃x", "_a", "foo", "Foo", "FOO", "foo1", "Foo1", "foo_1", "foo-1", "foo 1", "bar", "Bar", "1", "1st", "2", "10", "", " ", "  ", "_", "-", "a b", "a-b", "a_b", "a.b", "A B",
 	"type", "func", "string", "int", "nil", "true", "Empty", "é", "É", "日本", "x y z", "a/b", "a+b", "+", "#", "$ref", "100%", "q\"x", "a\\tb", "a\\b", "line1\nline2", "tab\there", "'", "`", "\\", "\"", "a\\", "\\n",
 	// a carriage return (a raw string literal would drop it), alone and next to quotes and backslashes
 	"\r", "cr\rlf\n", "reply \"ok\"\r\n", "back\\slash\r",
@@ -462,6 +462,7 @@ func c11Corr(ctx *Ctx, n int) error {
 		got := codegen.SanitizeEnumNames(names, vals)
 		var res struct {
 			Pairs [][2][]int `json:"pairs"`
+			Third [][2][]int `json:"third"`
 		}
 		toCps := func(xs []string) []interface{} {
 			out := []interface{}{}
@@ -479,6 +480,36 @@ func c11Corr(ctx *Ctx, n int) error {
 		}
 		ctx.Res.Eval(J{"names": names, "values": vals}, true)
 		ctx.Res.Count("corr:sanitize")
+		// the constants GenerateGoSchema declares: every name renamed once more by SchemaNameToTypeName (renameEnumNames)
+		{
+			declared := codegen.VerifRenameEnumNames(got, codegen.SchemaNameToTypeName)
+			want3 := map[string]string{}
+			for _, p := range res.Third {
+				want3[fromCps(p[0])] = fromCps(p[1])
+			}
+			ctx.Res.Count("corr:third-pass")
+			renamedTo := map[string]bool{}
+			for k := range got {
+				renamedTo[codegen.SchemaNameToTypeName(k)] = true
+			}
+			if len(renamedTo) != len(got) {
+				ctx.Res.Count("corr:third-pass:two-names-renamed-to-one")
+			}
+			if Canon(want3) != Canon(declared) {
+				ctx.Res.Disagree("CORR renameEnumNames∘SanitizeEnumNames vs Enums.pass3", J{"names": names, "values": vals}, want3, declared)
+			}
+			distinct := map[string]bool{}
+			for _, v := range vals {
+				distinct[v] = true
+			}
+			have := map[string]bool{}
+			for _, v := range declared {
+				have[v] = true
+			}
+			if len(declared) != len(distinct) || len(have) != len(distinct) {
+				ctx.Res.Violate("declared-constants:value-lost", fmt.Sprintf("the enum %q (names %q) is declared with %d constants for %d distinct values: %v", vals, names, len(declared), len(distinct), declared), J{"names": names, "values": vals, "result": declared})
+			}
+		}
 		if Canon(want) != Canon(got) {
 			ctx.Res.Disagree("CORR SanitizeEnumNames vs Enums.sanitizeEnumNames", J{"names": names, "values": vals}, want, got)
 			// is this input one on which the statement fails? (every distinct value keeps a constant of its own)
